@@ -63,6 +63,22 @@ def sandbox(cwd):
             mod.getpass = _no_prompt
     _gp.getpass = _no_prompt
     si.get_password = _no_prompt
+    # scripted slow commands: an inspection whose command carries the marker TIMEOUT "runs for 12 seconds" — longer than
+    # in-toto's default limit of 10 s, so it must time out unless a larger limit was given explicitly (no real waiting)
+    import subprocess as _sp
+    import in_toto.runlib as _rl
+    real_run = _rl.in_toto_run
+
+    def scripted_run(name, material_list, product_list, link_cmd_args, **kw):
+        if link_cmd_args and any(isinstance(a, str) and "TIMEOUT" in a for a in link_cmd_args):
+            cmd = [a.replace("TIMEOUT", "true") if isinstance(a, str) else a for a in link_cmd_args]
+            link = real_run(name, material_list, product_list, cmd, **kw)
+            limit = kw.get("timeout", st.LINK_CMD_EXEC_TIMEOUT)
+            if limit is not None and float(limit) < 12:
+                raise _sp.TimeoutExpired(link_cmd_args, limit)
+            return link
+        return real_run(name, material_list, product_list, link_cmd_args, **kw)
+    _rl.in_toto_run = scripted_run
     sys.stdout.flush()
     sys.stderr.flush()
     fd1, fd2 = os.dup(1), os.dup(2)
@@ -78,6 +94,7 @@ def sandbox(cwd):
         os.chdir(cwd)
         yield buf
     finally:
+        _rl.in_toto_run = real_run
         os.chdir(old["cwd"])
         sys.argv = old["argv"]
         sys.stdout, sys.stderr, sys.stdin = old["out"], old["err"], old["in"]
